@@ -60,6 +60,17 @@ class Env:
     def __init__(self, parent: Optional["Env"] = None, vars: Optional[Dict[str, Any]] = None):
         self.parent = parent
         self.vars: Dict[str, Any] = dict(vars or {})
+        self.outer_names: set = set()  # names declared nonlocal / global in this scope
+
+    def set(self, name: str, value: Any) -> None:
+        if name in self.outer_names:
+            e = self.parent
+            while e is not None:
+                if name in e.vars:
+                    e.vars[name] = value
+                    return
+                e = e.parent
+        self.vars[name] = value
 
     def lookup(self, name: str) -> Tuple[bool, Any]:
         e: Optional[Env] = self
@@ -70,7 +81,9 @@ class Env:
         return False, None
 
     def copy(self) -> "Env":
-        return Env(self.parent, dict(self.vars))
+        c = Env(self.parent, dict(self.vars))
+        c.outer_names = set(self.outer_names)
+        return c
 
 
 class ModInfo:
@@ -866,7 +879,11 @@ class Interp:
                     if isinstance(obj, Obj):
                         obj.attrs.pop(t.attr, None)
             return None
-        if isinstance(st, (ast.Global, ast.Nonlocal)):
+        if isinstance(st, ast.Nonlocal):
+            env.outer_names.update(st.names)
+            return None
+        if isinstance(st, ast.Global):
+            self.log("global-decl", st, names=list(st.names))
             return None
         raise Unsupported(f"statement {type(st).__name__} at {mi.rel}:{st.lineno}")
 
@@ -894,7 +911,7 @@ class Interp:
 
     def assign(self, target: ast.AST, v: Any, env: Env, mi: ModInfo, st: ast.AST) -> None:
         if isinstance(target, ast.Name):
-            env.vars[target.id] = v
+            env.set(target.id, v)
             return
         if isinstance(target, (ast.Tuple, ast.List)):
             if isinstance(v, Gamma):
